@@ -27,9 +27,13 @@ Definition zdec (z : Z) : string :=
 
 (* optional '-' then digits (leading zeros accepted) *)
 Definition parse_zdec (s : string) : option Z :=
-  match s with
-  | String "-" r => match parse_dec r with Some n => Some (- Z.of_N n)%Z | None => None end
-  | _ => match parse_dec s with Some n => Some (Z.of_N n) | None => None end
+  match parse_dec s with
+  | Some n => Some (Z.of_N n)
+  | None =>
+      match s with
+      | String "-" r => match parse_dec r with Some n => Some (- Z.of_N n)%Z | None => None end
+      | _ => None
+      end
   end.
 
 (* strconv.ParseInt / Atoi: additionally accepts a leading '+' *)
